@@ -92,6 +92,22 @@ def kcases(rng, r, quick):
                     yl, yh = yh, yl; dy = -dy
                 L = xl * yl; H = xh * yh; T = abs(dx) * abs(dy)
                 out.append('%x %s %s' % (n, hx(L + (H << (128 * n2))), hx(T)))
+                # carries that ripple over several limbs of the high product: L with all-ones upper half, H with all-ones low limbs,
+                # middle term chosen so that (L + H -+ T) * B^n2 overflows into them
+                Bn2 = 1 << (64 * n2)
+                for _k in range(3):
+                    L2 = rng.getrandbits(64 * n2) | ((Bn2 - 1) << (64 * n2)) if rng.random() < 0.7 else (1 << (128 * n2)) - 1
+                    ones = rng.randrange(1, 5)
+                    H2 = ((1 << (64 * ones)) - 1) | (rng.getrandbits(64 * (2 * n3 - ones) - 2) << (64 * ones)) if 2 * n3 > ones else (1 << (64 * ones)) - 1
+                    if r == 'karasub':
+                        M = rng.choice([Bn2 - 1, Bn2 - rng.getrandbits(10) - 1, rng.getrandbits(64 * n2) | (1 << (64 * n2 - 1))])
+                        T2 = L2 + H2 - M
+                    else:
+                        T2 = rng.choice([0, 1, Bn2 - 1, rng.getrandbits(64 * n2), rng.getrandbits(60)])
+                        M = L2 + H2 + T2
+                    res = L2 + (H2 << (128 * n2)) + M * Bn2
+                    if T2 < 0 or T2 >= (1 << (128 * n3)) or H2 >= (1 << (128 * n3)) or res >= (1 << (128 * n)): continue
+                    out.append('%x %s %s' % (n, hx(L2 + (H2 << (128 * n2))), hx(T2)))
             elif r == 'divexact_byff':
                 q = val(rng, n - 1) if n > 1 else 0
                 out.append('%x %s' % (n, hx(q * (B - 1))))
@@ -286,6 +302,13 @@ def run_variants(ctx, ev):
     tables = [(name, dd) for name, dd, ft in ship]
     rot = ctx.seed % max(1, len(tables))
     chosen_t = [tables[rot]] if quick else tables
+    if quick and not (getattr(ctx, 'props', None) or {}).get('ok', True):
+        # an obligation of Properties_C14.v is broken (for instance a shipped table is no longer a valid threshold vector):
+        # search for a failing input under EVERY shipped table, the changed ones first
+        rc, changed = vlib.sh(['git', '-C', vlib.REPO, 'diff', '--name-only', 'HEAD'], check=False)
+        ch = set(changed.split())
+        chosen_t = sorted(tables, key=lambda t: (t[0] not in ch, t[0]))
+        ctx.extra_cov['variant_search'] = 'obligation broken: all %d shipped tables searched' % len(chosen_t)
     chosen_o = [OPTIONS[ctx.seed % len(OPTIONS)]] if quick else OPTIONS
     per = 400 if quick else 1500
     done = []
